@@ -7,6 +7,8 @@ def key_fn(case, obs, verdict):
     v = verdict.split(" ")[0]
     if f[0] == "istep":
         return "instance_step:%s" % v
+    if f[0] == "wait":
+        return "waiter-over-startup-profile:%s" % v
     if f[0] == "drain":
         return "startup-profile-self-started:%s" % v
     if f[0] == "fincb":
